@@ -74,7 +74,15 @@ def main(argv=None) -> int:
     return run_property(a.prop.upper(), a.tier)
 
 
+def _alarm(signum, frame):  # a check must never hang: fail closed, but not as a violation
+    print("ANALYSIS-ERROR internal: analysis exceeded its time budget")
+    os._exit(2)
+
+
 if __name__ == "__main__":
+    import signal
+    signal.signal(signal.SIGALRM, _alarm)
+    signal.alarm(int(os.environ.get("VERIF_TIME_BUDGET", "600")))
     try:
         code = main()
     except SystemExit:
